@@ -38,6 +38,8 @@ def run(rep, tier):
         rep.call(type_tables.clip_table, rep, prog, "C18.clip-table")
         from ..engines import dispatch_rules
         rep.call(dispatch_rules.headroom, rep, prog, "C18.headroom")
+        from ..engines import formulas as _formulas
+        rep.call(_formulas.quantised_untouched, rep, prog, "C18.coefficients-untouched")
         rep.call(simd_rules.f64_accumulate, rep, prog, "C18.f64-accumulate", {"x86": 100, "x86-rayon": 100}.get(cfg, 8))
         rep.call(roundbudget.budget, rep, prog, "C18.round-budget", {"x86": 110, "arm": 60, "wasm": 55}.get(cfg, 40))
         # the property is stated for "alpha handling off": the flag the caller cleared must be the
